@@ -39,6 +39,9 @@ def run_history(h, d, seed, profile, stats, length, build="osmosis", monitors=No
                 n += 1
     except Divergence as dv:
         return hist, dv
+    finally:
+        if hist.mt is not None:
+            hist.mt.close()
     return hist, None
 
 
